@@ -16,7 +16,7 @@ def gen_case(rng):
     exprs = sorted({rt["path"] for o in ops for r in o["rules"] for rt in r["routes"]}) or ["/a"]
     finds = []
     for _ in range(rng.choice([4, 6, 8])):
-        t = gen_repo.gen_target(rng, exprs)
+        t = gen_repo.gen_target(rng, exprs, raw=True)
         for m in rng.sample(gen_repo.METHODS + ["OPTIONS", "TRACE", "CONNECT"], 2):
             finds.append({"op": "find", "method": m, "host": rng.choice(gen_repo.HOSTS), "target": t})
     return dict(base, ops=ops + finds)
